@@ -353,12 +353,12 @@ func TestPropConcurrentUIDs(t *testing.T) {
 // TestReplayConcurrentMoves: many messages moved while another session appends
 // to the destination (the claims of a MOVE must not swallow foreign messages).
 func TestReplayConcurrentMoves(t *testing.T) {
-	reps := 6
+	reps := 16
 	if ev.Thorough() {
-		reps = 60
+		reps = 100
 	}
 	for i := 0; i < reps; i++ {
-		tr := concTrial{preload: 60, homes: []string{"A", "C", "B"}, progs: [][]cop{
+		tr := concTrial{preload: 150, homes: []string{"A", "C", "B"}, progs: [][]cop{
 			{{kind: "uidmove", set: "1:*", box: "B"}},
 			{{kind: "append", box: "B"}, {kind: "append", box: "B"}, {kind: "append", box: "B"}, {kind: "append", box: "B"}, {kind: "append", box: "B"}, {kind: "append", box: "B"}},
 			{{kind: "copy", set: "1:*", box: "A"}, {kind: "append", box: "A"}},
